@@ -5,3 +5,20 @@ impl TypeContext {
         TypeContext { out_structs: Vec::new(), structs: Vec::new(), opaques: Vec::new(), enums: Vec::new(), traits: Vec::new() }
     }
 }
+
+#[cfg(kani)]
+pub mod __verif_hooks {
+    //! constructors for HIR types whose fields/constructors are crate-private
+    use crate::hir::*;
+    pub fn enum_type() -> Type {
+        Type::Enum(EnumPath { tcx_id: super::EnumId(0) })
+    }
+    pub fn opaque_type(optional: bool) -> Type {
+        Type::Opaque(OpaquePath {
+            lifetimes: Lifetimes::from_fn(&[], |_| MaybeStatic::Static),
+            optional: Optional(optional),
+            owner: Borrow { lifetime: MaybeStatic::Static, mutability: Mutability::Immutable },
+            tcx_id: super::OpaqueId(0),
+        })
+    }
+}
